@@ -24,3 +24,28 @@ static void grow_insert(void* v, void* pos, void* x) {
 }
 void vpx__ZNSt6vectorIhSaIhEE17_M_realloc_insertIJRKhEEEvN9__gnu_cxx17__normal_iteratorIPhS1_EEDpOT_(void* v, void* pos, void* x) { grow_insert(v, pos, x); }
 void vpx__ZNSt6vectorIhSaIhEE17_M_realloc_insertIJhEEEvN9__gnu_cxx17__normal_iteratorIPhS1_EEDpOT_(void* v, void* pos, void* x) { grow_insert(v, pos, x); }
+
+/* vector<uint8_t>::_M_fill_insert(pos, n, value) and _M_default_append(n) (resize() beyond the current size): same policy --
+ * harnesses pre-size their buffers, reaching the growing path symbolically is a bound violation */
+static void fill_insert(void* v, void* pos, u64 n, u8 val) {
+#ifdef __CPROVER__
+  (void)v; (void)pos; (void)n; (void)val;
+  __CPROVER_assert(0, "unwinding assertion: vector<uint8_t> resized beyond the size provided by the harness bound");
+  __CPROVER_assume(0);
+#else
+  vvec* w = v;
+  u64 sz = (u64)(w->e - w->b), at = (u64)((u8*)pos - w->b), cap = (u64)(w->c - w->b);
+  if (sz + n > cap) {
+    u64 nc = sz + (sz > n ? sz : n);
+    u8* nb = malloc(nc ? nc : 1);
+    for (u64 i = 0; i < sz; i++) nb[i] = w->b[i];
+    free(w->b);
+    w->b = nb; w->e = nb + sz; w->c = nb + nc;
+  }
+  for (u64 i = sz; i > at; i--) w->b[i - 1 + n] = w->b[i - 1];
+  for (u64 i = 0; i < n; i++) w->b[at + i] = val;
+  w->e += n;
+#endif
+}
+void vpx__ZNSt6vectorIhSaIhEE14_M_fill_insertEN9__gnu_cxx17__normal_iteratorIPhS1_EEmRKh(void* v, void* pos, u64 n, void* valp) { fill_insert(v, pos, n, *(u8*)valp); }
+void vpx__ZNSt6vectorIhSaIhEE17_M_default_appendEm(void* v, u64 n) { vvec* w = v; fill_insert(v, w->e, n, 0); }
